@@ -53,7 +53,8 @@ def functions_in(path, prefix='c_'):
 def run_condition(job):
     path, fn, line, timeout = job
     t0 = time.time()
-    cmd = [os.path.join(VERIF, '.venv', 'bin', 'crosshair'), 'check', '--report_all',
+    cmd = [os.path.join(VERIF, '.venv', 'bin', 'crosshair'), 'check',
+           '--extra_plugin', os.path.join(VERIF, 'vf', 'xh', 'plugin.py'), '--report_all',
            '--per_condition_timeout', str(timeout), '--per_path_timeout', str(max(5, timeout // 4)),
            f"{path}:{line + 1}"]
     try:
@@ -93,7 +94,7 @@ def replay_call(path, call_expr):
     return m.group(1) if m else 'raised:harness: ' + (p.stderr[-300:] or p.stdout[-300:])
 
 
-def run_all(prop, jobs, jobs_parallel, meta, tier, seed, known=None):
+def run_all(prop, jobs, jobs_parallel, meta, tier, seed, known=None, write=True):
     """jobs: list of (path, fn, line, timeout).  Returns exit code; prints VIOLATION lines; writes evidence."""
     t0 = time.time()
     results = []
@@ -176,14 +177,13 @@ def run_all(prop, jobs, jobs_parallel, meta, tier, seed, known=None):
         'wall_s': round(wall, 2),
         'violations': len(new_violations),
     }
+    code = 1 if new_violations else (2 if harness_errors else 0)
+    if not write:
+        return code, ev
     os.makedirs(os.path.join(VERIF, 'evidence'), exist_ok=True)
     with open(os.path.join(VERIF, 'evidence', f"{prop}.json"), 'w') as f:
         json.dump(ev, f, indent=1)
-    if new_violations:
-        return 1
-    if harness_errors:
-        return 2
-    return 0
+    return code
 
 
 def _xh_version():
